@@ -166,6 +166,10 @@ int main(int argc, char** argv) {
             bytes raw = ser_tx(t); std::string hx = hex(raw);
             for (size_t n = 0; n < raw.size(); n++) check_tx_string(hx.substr(0, 2 * n), {}, "truncated to " + std::to_string(n) + " of " + std::to_string(raw.size()) + " bytes", "truncation", V, h);
             for (size_t n = 1; n < hx.size(); n += 2) if (n < 40 || n + 40 > hx.size()) check_tx_string(hx.substr(0, n), {}, "odd-length hex (" + std::to_string(n) + " digits)", "odd-hex", V, h);
+            // a complete encoding followed (or preceded, or interrupted) by text that is not hex: the string is not a transaction encoding
+            for (const char* tail : {"zz", "g", "!", " 0g", "0g", "xx00", "\n#comment", "0x", "-"}) check_tx_string(hx + tail, {}, std::string("complete encoding followed by '") + tail + "'", "non-hex-tail", V, h);
+            for (const char* head : {"zz", "0x", "g0"}) check_tx_string(head + hx, {}, std::string("complete encoding preceded by '") + head + "'", "non-hex-head", V, h);
+            check_tx_string(hx.substr(0, hx.size() / 2) + "zz" + hx.substr(hx.size() / 2), {}, "complete encoding with 'zz' in the middle", "non-hex-middle", V, h);
             if (has_witness(t)) for (int fb = 0; fb < 256; fb++) { bytes r2 = raw; r2[5] = uint8_t(fb); check_tx_string(hex(r2), {}, "flag byte " + std::to_string(fb), "flag-byte", V, h); }
             if (has_witness(t)) for (int mb = 0; mb < 256; mb++) { bytes r2 = raw; r2[4] = uint8_t(mb); check_tx_string(hex(r2), {}, "marker byte " + std::to_string(mb), "marker-byte", V, h); }
             // witness flag set but every stack empty ("superfluous witness record")
